@@ -496,8 +496,25 @@ impl<'arena> PrettyFormatter<'arena> {
         )
     }
 
+    /// Capture measures the continuation lines of a block comment against the opening column
+    /// only when the comment opens its line. A comment that follows code on its line keeps the
+    /// source columns of its continuation lines, so they are printed without the nesting.
     fn block_comment(&self, comment: &'arena BlockComment) -> RcDoc<'arena> {
-        RcDoc::intersperse(comment.text.split('\n').map(RcDoc::text), RcDoc::hardline())
+        let text = comment.text.clone();
+        RcDoc::column(move |column| {
+            let text = text.clone();
+            RcDoc::nesting(move |nesting| {
+                let lines = RcDoc::intersperse(
+                    text.split('\n').map(|line| RcDoc::text(line.to_owned())),
+                    RcDoc::hardline(),
+                );
+                if column == nesting {
+                    lines
+                } else {
+                    lines.nest(-isize::try_from(nesting).unwrap_or(isize::MAX))
+                }
+            })
+        })
     }
 
     fn line_separation(&self, separation: LineSeparation) -> RcDoc<'arena> {
